@@ -24,11 +24,10 @@ def c14(ctx: Ctx):
     else:
         # D: the pinned-tree variant of the model must still show the design-level defect (model drift guard)
         ctx.tlc("MC_C14", "MC_C14_pinned.cfg", expect_violation=True, label="D pinned-model counterexample")
-        # D: the model of the code as it is (InfoFix = FALSE) must show the open finding F-C14-2 (model drift guard), and the
-        # model of the proposed repair (InfoFix = TRUE) must satisfy the contract without exception
-        ctx.tlc("MC_C14", "MC_C14_asis.cfg", expect_violation=True, label="D as-is model shows F-C14-2")
-        ctx.tlc("MC_C14", "MC_C14_repair.cfg", label="D repaired model: L2=>L1, no exception")
-        # D + F: exhaustive L2 => L1 (up to the open finding's class) and generation of every behaviour
+        # D: the model of the wrappers before fix 14f1d91 (InfoFix = FALSE: a first WriteHeader(1xx) taken for the response's
+        # status) is a refuted design: it must still violate the contract (F-C14-2; model drift guard, like the pinned variant)
+        ctx.tlc("MC_C14", "MC_C14_infofinal.cfg", expect_violation=True, label="D pre-14f1d91 model counterexample (F-C14-2)")
+        # D + F: exhaustive L2 => L1 (the model of the code as it is, InfoFix = TRUE; no exception) and generation of every behaviour
         ctx.tlc("MC_C14", "MC_C14_%s.cfg" % tier, label="D/F exhaustive L2=>L1 + generate")
         n = ctx.unquote(ctx.spec("cases.ndjson"), cases)
         ctx.exhaustive = True
